@@ -34,6 +34,47 @@ def unwrap(x):
 ''')
     mn.ob("newtype_chain", "x: int", "return unwrap(x)", timeout=60, family="NewType chains / Annotated unwrapping with a provider on an intermediate NewType",
           bounds="3-level NewType chain, Annotated, List, Optional; x any int")
+    mn.nat("dump_declared_class", '''
+import ipaddress, uuid, pathlib, datetime as _dtm, decimal, fractions
+class MyUUID(uuid.UUID):
+    def __str__(self): return "my-" + super().__str__()
+class MyDecimal(decimal.Decimal):
+    def __str__(self): return "D(" + super().__str__() + ")"
+class MyFraction(fractions.Fraction):
+    def __str__(self): return "F"
+class MyDate(_dtm.date):
+    def isoformat(self): return "never"
+DECL = (
+    (ipaddress.IPv4Address, ipaddress.IPv4Interface("192.168.1.7/24"), "192.168.1.7"),
+    (ipaddress.IPv6Address, ipaddress.IPv6Interface("::1/64"), "::1"),
+    (uuid.UUID, MyUUID(int=5), "00000000-0000-0000-0000-000000000005"),
+    (decimal.Decimal, MyDecimal("1.50"), "1.50"),
+    (fractions.Fraction, MyFraction(1, 3), "1/3"),
+    (_dtm.date, _dtm.datetime(2024, 2, 29, 1, 2, 3), "2024-02-29"),
+    (_dtm.date, MyDate(2024, 2, 29), "2024-02-29"),
+    (pathlib.PurePosixPath, pathlib.PurePosixPath("/a/b"), "/a/b"),
+)
+DECL_RS = six_retorts()
+def chk_dump_declared_class(i, wrap):
+    tp, v, exp = DECL[i]
+    for k, r in DECL_RS.items():
+        if wrap == 0:
+            if r.get_dumper(tp)(v) != exp: return False
+            back = r.get_loader(tp)(r.get_dumper(tp)(v))             # the dumped form is one the loader of the DECLARED type accepts
+            if type(back) is not tp: return False
+        elif wrap == 1:
+            if list(r.get_dumper(List[tp])([v])) != [exp]: return False
+        elif wrap == 2:
+            if r.get_dumper(Optional[tp])(v) != exp: return False
+        else:
+            if r.get_dumper(Dict[str, tp])({"k": v}) != {"k": exp}: return False
+    return True
+def nat_dump_declared_class():
+    bad = [{"i": str(i), "wrap": str(w)} for i in range(len(DECL)) for w in range(4) if not chk_dump_declared_class(i, w)]
+    return {"status": "REFUTED" if bad else "CONFIRMED", "cexs": bad[:5], "evaluations": len(DECL) * 4 * 6,
+            "note": "labelled native enumeration: pooled C-level values (instances of subclasses of the declared class); no symbolic dimension"}
+''', timeout=60, family="dumpers format a value by the DECLARED class: a subclass instance is dumped in the documented form of the declared type (labelled enumeration)",
+           bounds="8 (declared type, subclass instance) pairs (IP interfaces under addresses, datetime under date, subclasses overriding __str__ / isoformat) bare, in List, Optional, Dict; 6 modes")
     mods.append(mn)
     from props.C15 import build as build_c15
     for m15 in build_c15(tier, seed).modules:
